@@ -342,15 +342,20 @@ pub fn determine_tls_version(
 
     // Parse legacy version from ClientHello
     // Note: SSL 2.0 is not supported by tls-parser (too legacy/vulnerable)
-    match *legacy_version {
-        tls_parser::TlsVersion::Tls13 => TlsVersion::V1_3,
-        tls_parser::TlsVersion::Tls12 => TlsVersion::V1_2,
-        tls_parser::TlsVersion::Tls11 => TlsVersion::V1_1,
-        tls_parser::TlsVersion::Tls10 => TlsVersion::V1_0,
-        tls_parser::TlsVersion::Ssl30 => TlsVersion::Ssl3_0,
-        _ => {
-            debug!("Unknown/unsupported TLS version {:?}, defaulting to TLS 1.2", legacy_version);
-            TlsVersion::V1_2
+    tls_version_from_code(legacy_version.0)
+}
+
+/// Maps a TLS version code point to the JA4 version; unknown codes are reported as such ("00").
+fn tls_version_from_code(code: u16) -> TlsVersion {
+    match code {
+        0x0304 => TlsVersion::V1_3,
+        0x0303 => TlsVersion::V1_2,
+        0x0302 => TlsVersion::V1_1,
+        0x0301 => TlsVersion::V1_0,
+        0x0300 => TlsVersion::Ssl3_0,
+        other => {
+            debug!("Unknown/unsupported TLS version 0x{:04x}", other);
+            TlsVersion::Unknown(other)
         }
     }
 }
